@@ -148,7 +148,7 @@ def cases(tier):
     # re-inserted in |g> (also when the norm is not 1, as under the non-Hermitian noisy evolution) - shared with C13
     from harness.c13 import mps_fill_results
 
-    for nt, d, chi in ([(3, 2, 2)] if q else [(3, 2, 2), (4, 2, 2), (3, 3, 1)]):
+    for nt, d, chi in ([(3, 2, 2)] if q else [(3, 2, 2), (3, 3, 1)]):  # (4 register atoms: C13's thorough tier)
         out.append(
             Case(
                 f"mps_fill_results_N{nt}_d{d}_chi{chi}",
